@@ -21,6 +21,7 @@ From Compio.Model Require Import Base IoHelpers Compat.
 From Compio.Thm Require Import IoHelpersThm CompatThm.
 From Compio.Gen Require Frag.
 From Compio.Thm Require FragIoThm.
+From Compio.Thm Require FragCompatThm.
 
 (* ---------------------------------------------------------------------- *)
 (* C12_read_fifo: bytes handed to the caller ++ bytes still buffered ++ bytes
@@ -291,3 +292,31 @@ Theorem C12_need_flush_is_source : forall b,
   buf_need_flush b = Frag.buffer_need_flush (vcap (bvec b)) (vlen (bvec b)).
 Proof. exact FragIoThm.need_flush_tie. Qed.
 Print Assumptions C12_need_flush_is_source.
+
+(* SyncWriteBuf::write (compio-io/src/compat/sync_stream.rs): the accept rule as the source has
+   it now (how many bytes are appended, or WouldBlock when the buffer is at its limit; the
+   subtraction checked as in a debug build) decides the model's write, for every adapter state
+   that gets past the two early returns and every data *)
+Theorem C12_write_accept_is_source : forall h data,
+  wtaken h = false ->
+  (buf_need_flush (wb h) && negb (Nat.eqb (vlen (bvec (wb h))) 0)) = false ->
+  wr_write h data =
+    let b := wb h in
+    let! a := Frag.sync_write_accept (vlen (bvec b) - bbegin b) (length data) (wmax h) in
+    match a with
+    | None => Ok (OErr E_WOULD_BLOCK, h)
+    | Some k => Ok (OOk k, set_wb h (mkbuf (vextend (bvec b) (firstn k data)) (bbegin b)))
+    end.
+Proof. exact FragCompatThm.wr_write_tie. Qed.
+Print Assumptions C12_write_accept_is_source.
+
+(* SyncReadBuf::fill_read_buf: the limit test as the source has it now is the model's *)
+Theorem C12_read_limit_is_source : forall h,
+  reof h = false ->
+  let b := buf_compact_to (rb h) (rbase h) (rmax h) in
+  (Frag.sync_read_limit_hit (vlen (bvec b)) (rmax h) = true ->
+     rd_fill_prepare h = (Some (OErr E_OUT_OF_MEMORY), set_rb h b))
+  /\ (Frag.sync_read_limit_hit (vlen (bvec b)) (rmax h) = false ->
+     fst (rd_fill_prepare h) = None).
+Proof. exact FragCompatThm.rd_limit_tie. Qed.
+Print Assumptions C12_read_limit_is_source.
